@@ -364,7 +364,7 @@ PROPS = {
                 "Oracle on the history: every request answered without error; a read shows, per identity, a point that some write started before the read ended produced and that is at least as new as "
                 "every write acknowledged before the read was issued; reads of one reader never go back; the final rows are the newest acknowledged point per identity with consistent hashes; stop returned; "
                 "file re-opened. In addition the same load runs under the Go race detector (12 cases quick, 150 thorough): any DATA RACE report is a violation. distinct = distinct case line "
-                "(schedules are wall-clock dependent: each run explores new interleavings) One request in twelve of every writer is one the store must refuse (NaN, self edge, cycle): it must be answered with the refusal, not time out.",
+                "(schedules are wall-clock dependent: each run explores new interleavings) One request in twelve of every writer is one the store must refuse (NaN, self edge, cycle): it must be answered with the refusal, not time out. Every fifth case stops the instance in the MIDDLE of the load (suffix x): Stop must return, the file must open again with consistent hashes, every write acknowledged before or during the shutdown must be there, and a write that was sent but not acknowledged may or may not be.",
         "trusted": ["Go scheduler, sync.Mutex, database/sql connection pool, modernc SQLite WAL snapshot isolation and locking, embedded nats-server: the run-time whose interleavings the model abstracts into a commit order",
                     "the Go race detector (sound for the executions it sees, not complete)"],
         "modelled": ["a concurrent run is modelled by its commit order and by the prefix each read saw (Siot/Model/Conc.lean); the theorems hold for every commit order",
